@@ -51,6 +51,13 @@ fn programs() -> Vec<Prog> {
             extra: vec!["FOR J=1 TO 9", "GOTO 20", "DIM B(20)", "B(9)=1"],
         },
         Prog {
+            name: "P5",
+            // an INPUT whose target cell is drawn afresh every time it is evaluated, and a DIM that
+            // needs room (what earlier runs and the prompt have dimensioned is gone after RUN)
+            lines: vec!["10 INPUT A(INT(RND(1)*6))", "20 PRINT A(0);A(1);A(2);A(3);A(4);A(5)", "30 DIM D(99): PRINT D(5)"],
+            extra: vec!["DIM B(99,99)", "DIM C(99,99)", "GOTO 30"],
+        },
+        Prog {
             name: "P3",
             lines: vec!["10 PRINT \"a\";X", "20 STOP", "30 INPUT W", "40 PRINT W/0", "50 PRINT \"never\""],
             extra: vec!["GOTO 30", "GOSUB 10"],
@@ -214,7 +221,7 @@ pub fn run(thorough: bool) -> Report {
             vec![]
         };
         let mk = || mk_sess();
-        let (stats, viol) = bfs(&mk, &[root.clone()], &alpha, depth, &check, Some(&probe), 20_000_000);
+        let (stats, viol) = bfs(&mk, &[root.clone()], &alpha, depth, &check, Some(&probe), 8_000_000);
         if viol.is_empty() && stats.events_enabled.len() < alpha.len() {
             machinery("vacuous: not every history event was enabled");
         }
